@@ -43,7 +43,7 @@ FACE_NAMES = ("min_x", "max_x", "min_y", "max_y", "min_z", "max_z")
 
 
 def cases(tier, rng):
-    n_cases, per = (8, 2) if tier == "quick" else (56, 12)
+    n_cases, per = (8, 2) if tier == "quick" else (56, 8)
     return [{"kind": "setups", "n": per, "spec_seed": int(rng.integers(1 << 30)), "force": i % 8} for i in range(n_cases)]
 
 
